@@ -16,11 +16,16 @@ mod git_commit_parser;
 mod pos_conv;
 // --- harness ---
 mod common;
+mod c08;
+mod c19;
+mod c17;
+mod c03;
 mod corpus;
 mod frontends;
 mod textgen;
 mod tokfmt;
 mod probe;
+mod c01;
 mod c02;
 mod c13;
 
@@ -68,8 +73,13 @@ fn main() {
     let ctx = Ctx { prop: prop.clone(), tier, seed, out, replay };
     quiet_panics();
     match prop.as_str() {
+        "C01" => c01::run(&ctx),
         "C02" => c02::run(&ctx),
         "C13" => c13::run(&ctx),
+        "C03" => c03::run(&ctx),
+        "C17" => c17::run(&ctx),
+        "C19" => c19::run(&ctx),
+        "C08" => c08::run(&ctx),
         _ => {
             eprintln!("unknown property {}", prop);
             std::process::exit(2);
